@@ -306,6 +306,11 @@ def body_lines(ctx, case):
     eng = make_engine(mlw, bs, calls)
     res = ctx.must("process_lines_raises", eng.process_lines, imgs, False)
     ts, ls, coords = res
+    # the text-only mode (no_logits=True, used when only transcriptions are wanted) stitches the same text
+    res_text = ctx.must("process_lines_raises", make_engine(mlw, bs, []).process_lines, [im.copy() for im in imgs], False, False, True)
+    ctx.check(list(res_text[0]) == list(ts), "text_only_mode_stitches_differently",
+              lambda: "classes=%r max_line_width=%d: with logits %r, no_logits %r" % (lines_classes, mlw, ts, res_text[0]))
+    ctx.check(all(l is None for l in res_text[1]), "logits_returned_in_no_logits_mode", lambda: "%r" % (res_text[1],))
     split = False
     for i, im in enumerate(imgs):
         wins = expected_windows(im, mlw)
